@@ -58,7 +58,8 @@ P["C06"] = dict(
              "R-UNIT-DIVISOR: no division by 1 - x*x with x a product of sines and cosines (|x| = 1 attained, e.g. on the equator) without a test of the divisor",
              "R-ITER-CAP-AGREE: the geodesic operator tests the iteration count returned by geodesic_inv against a threshold below geodesic_inv's iteration cap (non-convergence is detectable)",
              "R-ARG-SELECTION: at every call of a crate function no argument is a caller variable named like another same-typed parameter of the callee (exchanged arguments of equal type, e.g. qs(e, sinphi), chase(&locals, globals, key))",
-             "R-PARAM-MIRROR: the latitude operator uses the same ellipsoid forward and inverse"],
+             "R-PARAM-MIRROR: the latitude operator uses the same ellipsoid forward and inverse",
+             "R-LAT-SHAPE: every auxiliary latitude conversion has a shape that is odd and fixes the equator and the poles by construction: phi + S(2 phi) with a sine series in even multiples and the coefficient set of its direction (forward/inverse), atan(c tan phi) / atan2(tan phi, c), or the isometric pair (odd)"],
     not_decided=["cartesian/geographic accuracy", "geodesic consistency", "closed-form agreement of series",
                  "identities among derived shape parameters"],
     level="Decides the table/series clauses of ellipsoid coherence exactly; numerical clauses are not claimed.",
